@@ -562,6 +562,26 @@ def relax(doc, path):
     return d
 
 
+def plant(sample, spath, x):
+    """the samples obtained from [sample] by putting x at the instance position the schema path names
+    (properties/<n>, items, prefixItems/<i>); [] when the sample has no such position"""
+    def go(val, sp):
+        if not sp:
+            return [copy.deepcopy(x)]
+        k = sp[0]
+        if k == "properties" and len(sp) >= 2 and isinstance(val, dict) and sp[1] in val:
+            return [dict(val, **{sp[1]: y}) for y in go(val[sp[1]], sp[2:])]
+        if k == "items" and isinstance(val, list):
+            out = []
+            for i in range(len(val)):
+                out += [val[:i] + [y] + val[i + 1:] for y in go(val[i], sp[1:])]
+            return out
+        if k == "prefixItems" and len(sp) >= 2 and isinstance(val, list) and isinstance(sp[1], int) and sp[1] < len(val):
+            return [val[:sp[1]] + [y] + val[sp[1] + 1:] for y in go(val[sp[1]], sp[2:])]
+        return []
+    return go(sample, list(spath))
+
+
 def oracle_c12(doc):
     g, pairs, err = generate(doc)
     if g is None or err or not pairs:
@@ -606,6 +626,21 @@ def oracle_c12(doc):
                             b.setdefault("$defs", doc["$defs"])
                         va, vb = jsonschema.Draft202012Validator(a), jsonschema.Draft202012Validator(b)
                         if not any(vb.is_valid(x) and not va.is_valid(x) for x in defaults):
+                            why = ":default-samples-of-the-freed-types-violate-another-constraint"
+                    if not why and len(path) > 1:
+                        # the other constraint may reach the position from another conjunct (allOf / $ref next to it): put
+                        # each default sample at that position of every valid generated sample and judge the whole documents
+                        tried = 0
+                        hit = False
+                        for e, smp in pairs:
+                            if not (e.is_valid and v.is_valid(smp)):
+                                continue
+                            for x in defaults:
+                                for y in plant(smp, path[:-1], x):
+                                    tried += 1
+                                    if v2.is_valid(y) and not v.is_valid(y):
+                                        hit = True
+                        if tried and not hit:
                             why = ":default-samples-of-the-freed-types-violate-another-constraint"
                 elif not any(e.is_valid for e, _ in pairs):
                     why = ":no-valid-sample"
